@@ -108,7 +108,7 @@ class C08(Check):
         kind = c.get("kind", ("noreg",))
         ksx = T.kind_sx({"kind": kind, "content": c["content"]})
         opts = [[a, b] for a, b in c.get("options", [])]
-        return sx([c["content"], c["chunks"], c["bs"], 0, opts, [65464, 30, 4096], ksx, [obs[0], obs[1]]])
+        return sx([c["content"], c["chunks"], c["bs"], 0, opts, [65464, 30 * 1024, 4096 * 1024], ksx, [obs[0], obs[1]]])
 
     def canon(self, obs):
         return [[bytes(b) for b in obs[0]], 1 if obs[1] else 0]
